@@ -336,7 +336,12 @@ def k3_ops(NS, opname, attr, P, inplace, if_=True):
 
 
 def build_k5(NS, P):
-    return NS.K5(x=P["x0"], w=P["n0"])
+    o = NS.K5(x=P["x0"], w=P["n0"])
+    if P.get("b1"):
+        o.p  # fill the cache of the derived property (a "cached derived value reachable from the receiver")
+    if P.get("keyok"):
+        o.z = P["i0"] if "i0" in P else 3  # assigned value of an attribute declared invalidated_by x
+    return o
 
 
 def k5_ops(NS, opname, P, inplace):
@@ -362,10 +367,22 @@ def k5_ops(NS, opname, P, inplace):
         v = P["i1"]
         lst = [v, "ab"]
         return Op("with_scores(list)", lambda o: o.with_scores(lst, **kw), [lst], lambda st: set_state(st, "scores", [v, 2]), None, inplace)
+    if opname == "with_x_dep":  # x is a dependency of the cached property p and of z (invalidated_by)
+        v = P["i1"]
+        return Op("with_x(dep)", lambda o: o.with_x(v, **kw), [v], lambda st: set_state(set_state(st, "x", v), "z", 7), None, inplace)
+    if opname == "transform_x_dep":
+        c = P["i1"]
+        fn = fn_add(c)
+        return Op("transform_x(dep)", lambda o: o.transform_x(fn, **kw), [fn], lambda st: set_state(set_state(st, "x", st["x"] + c), "z", 7), None, inplace)
+    if opname == "update_x_dep":
+        v = P["i1"]
+        return Op("update(x)(dep)", lambda o: o.update(x=v, **kw), [v], lambda st: set_state(set_state(st, "x", v), "z", 7), None, inplace)
+    if opname == "reset_x_dep":
+        return Op("reset_x(dep)", lambda o: o.reset_x(**kw), [], lambda st: set_state(set_state(st, "x", 0), "z", 7), None, inplace)
     raise AssertionError(opname)
 
 
-K5_OPS = ["with_pw_str", "with_pw_int", "setattr_pw_str", "update_pw_str", "with_scores"]
+K5_OPS = ["with_pw_str", "with_pw_int", "setattr_pw_str", "update_pw_str", "with_scores", "with_x_dep", "transform_x_dep", "update_x_dep", "reset_x_dep"]
 
 
 # ---------------------------------------------------------------------------------------------------------------------
